@@ -10,6 +10,7 @@ import CanopenProofs.C02
 import CanopenProofs.C04
 import CanopenProofs.C01
 import CanopenProofs.C05
+import CanopenProofs.C06
 import CanopenModel.Od
 import Mathlib.Data.List.Nodup
 
@@ -618,6 +619,335 @@ theorem bytes_roundtrip (c : Chan (Srv × Node)) (idx sub t : Nat) (bs : Bytes)
     (by intro h; rw [hnn] at h; cases h)
     (by intro r hr; simp [hrow] at hr) hlen
 
+/-! ## access types: write-only entries, and entries the application assigns itself
+
+The bus may assign an entry whose access type has a "w" (`rw`, `wo`, `rwr`, `rww`) and may read one
+whose access type has an "r" or is `const` (all but `wo`).  The local node's own accessors — the
+application side — are not subject to access rights: `local.sdo[x].raw` reads what a master wrote
+into a write-only entry and assigns read-only / constant ones. -/
+
+/-- the entry `idx:sub` exists in the node's dictionary with data type `t` and access type `a`
+    (any of the six, as a code), no application read callback overrides it and no application
+    write callback refuses downloads to it -/
+structure Entry (n : Node) (idx sub : Nat) (t : Option Nat) (a : Nat) : Prop where
+  found : ∃ obj, findObject n (some idx) (some sub) = .ok obj ∧ obj.dtype = t ∧ obj.access = a
+  nocb : lookup (idx, sub) n.readCb = none
+  norefuse : lookup (idx, sub) n.refuse = none
+
+theorem RWEntry.toEntry {n : Node} {idx sub : Nat} {t : Option Nat} (h : RWEntry n idx sub t) :
+    ∃ a, Entry n idx sub t a ∧ accReadable a = true ∧ accWritable a = true := by
+  obtain ⟨obj, hf, ht, hr, hw⟩ := h.found
+  exact ⟨obj.access, ⟨⟨obj, hf, ht, rfl⟩, h.nocb, h.norefuse⟩, hr, hw⟩
+
+/-- the node after `set_data(idx, sub, data)` went through: stored, write callbacks told once -/
+def stored (n : Node) (idx sub : Nat) (data : Bytes) : Node :=
+  { n with writeLog := n.writeLog ++ [(idx, sub, data)], store := ((idx, sub), data) :: n.store }
+
+/-- `set_data` accepts: over the bus (`chk`) only when the access type has a "w"; from the
+    application always -/
+theorem setData_entry (n : Node) (idx sub : Nat) (t : Option Nat) (a : Nat) (data : Bytes) (chk : Bool)
+    (h : Entry n idx sub t a) (hw : chk = true → accWritable a = true)
+    (hlen : isNumberType t = true → 8 * data.length = bitLen t) :
+    setData n (some idx) (some sub) data chk = .ok (stored n idx sub data) := by
+  obtain ⟨obj, hf, ht, ha⟩ := h.found
+  have hchk : (chk && !accWritable obj.access) = false := by
+    cases chk with
+    | false => rfl
+    | true => rw [ha, hw rfl]; rfl
+  unfold setData
+  rw [hf]
+  simp only [hchk, Bool.false_eq_true, if_false, ht]
+  by_cases hn : isNumberType t = true
+  · simp [hn, hlen hn, h.norefuse, stored]
+  · simp [hn, h.norefuse, stored]
+
+/-- `get_data` after the store: the stored bytes — except over the bus (`chk`) for an entry the
+    bus may not read, which is refused with 0x06010001 -/
+theorem getData_entry (n : Node) (idx sub : Nat) (t : Option Nat) (a : Nat) (data : Bytes) (chk : Bool)
+    (h : Entry n idx sub t a) :
+    getData (stored n idx sub data) idx sub chk =
+      if chk && !accReadable a then .error (.abort 0x06010001) else .ok data := by
+  obtain ⟨obj, hf, _, ha⟩ := h.found
+  subst ha
+  have hf' : findObject (stored n idx sub data) (some idx) (some sub) = .ok obj := by
+    simpa [findObject, stored] using hf
+  unfold getData
+  rw [hf']
+  simp only []
+  by_cases hc : (chk && !accReadable obj.access) = true
+  · simp [hc]
+  · have hnocb : lookup (idx, sub) (stored n idx sub data).readCb = none := h.nocb
+    simp only [hc, Bool.false_eq_true, if_false, hnocb]
+    simp [stored, lookup]
+
+/-- `request_response` when the library server answers with one abort frame -/
+theorem rr_lib_abort (c : Chan (Srv × Node)) (req : Bytes) (s' : Srv) (n' : Node) (idx sub code : Nat)
+    (hc : code < 2 ^ 32)
+    (hstep : srvStep c.peer.1 c.peer.2 req = ⟨s', n', [0x80 :: (mux idx sub ++ leBytes 4 code)], false⟩) :
+    requestResponse libPeer c req =
+      ({ peer := (s', n'), queue := [], sent := c.sent ++ [req] }, .error (.aborted code)) := by
+  obtain ⟨⟨s, n⟩, q, snt⟩ := c
+  have hval : leVal (leBytes 4 code) = code := by
+    rw [leVal_leBytes]; exact Nat.mod_eq_of_lt (by simpa using hc)
+  simp only [requestResponse, send, libPeer] at hstep ⊢
+  simp only [hstep, List.nil_append]
+  simp [decodeResponse, RESPONSE_ABORTED, mux, List.take_of_length_le (Nat.le_of_eq (leBytes_length 4 code)), hval]
+
+/-- **A read the node refuses reaches the caller as `SdoAbortedError` with the node's code**, from
+    any server state; the node is unchanged (no value, and in particular no other value, comes back). -/
+theorem upload_lib_refused (c : Chan (Srv × Node)) (idx sub code : Nat) (odType : Option (Option Nat)) (fuel : Nat)
+    (hidx : idx < 65536) (hsub : sub < 256) (hc : code < 2 ^ 32)
+    (hv : getData c.peer.2 idx sub true = .error (.abort code)) :
+    ∃ c', upload libPeer c idx sub odType fuel = (c', .error (.aborted code)) ∧ c'.peer.2 = c.peer.2 ∧
+      (SrvWF c.peer.1 → SrvWF c'.peer.1) := by
+  have hmux : idx % 256 + 256 * (idx / 256 % 256) = idx := by omega
+  have hsub' : sub % 256 = sub := Nat.mod_eq_of_lt hsub
+  have hstep : srvStep c.peer.1 c.peer.2 (0x40 :: (mux idx sub ++ [0, 0, 0, 0])) =
+      ⟨{ c.peer.1 with index := some idx, sub := some sub }, c.peer.2,
+       [0x80 :: (mux idx sub ++ leBytes 4 code)], false⟩ := by
+    simp only [srvStep, mux, List.cons_append, List.nil_append, dispatch, req_cmds.1, if_true, initUpload,
+      hmux, hsub', hv, finish, errCode]
+    have := Canopen.C06.abortFrame_eq { c.peer.1 with index := some idx, sub := some sub } idx sub code rfl rfl hidx hsub
+    simp only [mux, List.cons_append, List.nil_append, hsub'] at this
+    rw [this]
+  have hrr := rr_lib_abort c _ _ _ idx sub code hc hstep
+  obtain ⟨_, _, _, _, _, f40, _⟩ := frames_eq
+  refine ⟨{ peer := ({ c.peer.1 with index := some idx, sub := some sub }, c.peer.2), queue := [],
+             sent := c.sent ++ [0x40 :: (mux idx sub ++ [0, 0, 0, 0])] }, ?_, rfl, fun h => h⟩
+  unfold upload rsInit
+  simp only [f40, muxB_eq, hrr, rsInitDecode]
+
+/-- what both sides see once `enc` is stored at an entry of access type `a`: the local side reads
+    the value (typed accessor and `sdo.upload`) whatever `a` is; the remote side reads it when the
+    bus may read the entry and is refused with 0x06010001 when it may not -/
+theorem reads_after_store (n : Node) (idx sub : Nat) (t : Option Nat) (a : Nat) (v' : Val) (enc : Bytes)
+    (hidx : idx < 65536) (hsub : sub < 256) (hentry : Entry n idx sub t a)
+    (hdec : decodeRaw t enc = some v')
+    (hcut : ∀ r, t.bind findRow = some r → r.size = enc.length) (hlen : enc.length < 2 ^ 32) :
+    lookup (idx, sub) (stored n idx sub enc).store = some enc ∧
+    localGet (stored n idx sub enc) idx sub t = some v' ∧
+    localUpload (stored n idx sub enc) idx sub = some enc ∧
+    ∀ c1 : Chan (Srv × Node), c1.peer.2 = stored n idx sub enc →
+      (accReadable a = true → ∀ fuel, enc.length + 2 ≤ fuel →
+        ∃ c2, remoteGet c1 idx sub t fuel = (c2, .ok v') ∧ c2.peer.2 = c1.peer.2) ∧
+      (accReadable a = false → ∀ fuel,
+        ∃ c2, remoteGet c1 idx sub t fuel = (c2, .error (.aborted 0x06010001)) ∧ c2.peer.2 = c1.peer.2) := by
+  have hloc : getData (stored n idx sub enc) idx sub false = .ok enc := by
+    rw [getData_entry n idx sub t a enc false hentry]; simp
+  refine ⟨by simp [stored, lookup], by simp only [localGet, hloc, hdec], by simp only [localUpload, hloc], ?_⟩
+  intro c1 hn1
+  constructor
+  · intro hr fuel hfuel
+    have hget : getData c1.peer.2 idx sub true = .ok enc := by
+      rw [hn1, getData_entry n idx sub t a enc true hentry]; simp [hr]
+    obtain ⟨c2, hup, hn2, _⟩ := upload_lib c1 idx sub enc (some t) fuel hidx hsub hget hlen hfuel
+    have htr : truncate (some t) (some enc.length) enc = enc := by
+      cases hrw : t.bind findRow with
+      | none => simp only [truncate, hrw]
+      | some r =>
+        have hs := hcut r hrw
+        have hb : bitLen t / 8 = r.size := by
+          cases t with
+          | none => simp at hrw
+          | some tt => simp only [Option.bind_some] at hrw; simp [bitLen, hrw]
+        simp only [truncate, hrw, hb, hs, Nat.lt_irrefl, if_false]
+    exact ⟨c2, by simp only [remoteGet, hup, htr, hdec], hn2⟩
+  · intro hr fuel
+    have hget : getData c1.peer.2 idx sub true = .error (.abort 0x06010001) := by
+      rw [hn1, getData_entry n idx sub t a enc true hentry]; simp [hr]
+    obtain ⟨c2, hup, hn2, _⟩ := upload_lib_refused c1 idx sub 0x06010001 (some t) fuel hidx hsub (by decide) hget
+    exact ⟨c2, by simp only [remoteGet, hup], hn2⟩
+
+/-- **The remote side never reads a different value.**  Once `enc` (the encoding of `v'`) is stored
+    at an entry of *any* access type, every remote read that returns a value returns `v'` — a
+    write-only entry yields no value at all, never another one. -/
+theorem remote_read_never_differs (n : Node) (idx sub : Nat) (t : Option Nat) (a : Nat) (v' : Val) (enc : Bytes)
+    (hidx : idx < 65536) (hsub : sub < 256) (hentry : Entry n idx sub t a)
+    (hdec : decodeRaw t enc = some v')
+    (hcut : ∀ r, t.bind findRow = some r → r.size = enc.length) (hlen : enc.length < 2 ^ 32)
+    (c1 : Chan (Srv × Node)) (hn1 : c1.peer.2 = stored n idx sub enc) (fuel : Nat) (hfuel : enc.length + 2 ≤ fuel)
+    (c2 : Chan (Srv × Node)) (r : Val) (hread : remoteGet c1 idx sub t fuel = (c2, .ok r)) : r = v' := by
+  obtain ⟨_, _, _, hrem⟩ := reads_after_store n idx sub t a v' enc hidx hsub hentry hdec hcut hlen
+  obtain ⟨hyes, hno⟩ := hrem c1 hn1
+  cases hr : accReadable a with
+  | true =>
+    obtain ⟨c2', h2, _⟩ := hyes hr fuel hfuel
+    rw [h2] at hread
+    cases hread; rfl
+  | false =>
+    obtain ⟨c2', h2, _⟩ := hno hr fuel
+    rw [h2] at hread
+    cases hread
+
+/-- **Generic round trip for every access type that admits the write.**  If the access type of the
+    entry has a "w" (`rw`, `wo`, `rwr`, `rww`), then after `remote[x].raw = v` the local node holds
+    exactly `enc`; the local node's own accessor reads `v'` and `local.sdo.upload` gives `enc` —
+    also for a write-only entry; the remote side reads `v'` when the entry is readable over the bus,
+    and is refused with abort 0x06010001 (node unchanged) when it is not. -/
+theorem access_roundtrip (c : Chan (Srv × Node)) (idx sub : Nat) (t : Option Nat) (a : Nat) (v v' : Val) (enc : Bytes)
+    (hwf : SrvWF c.peer.1) (hidx : idx < 65536) (hsub : sub < 256) (hentry : Entry c.peer.2 idx sub t a)
+    (hw : accWritable a = true)
+    (henc : encodeRaw t v = some enc) (hdec : decodeRaw t enc = some v')
+    (hnum : isNumberType t = true → 8 * enc.length = bitLen t)
+    (hcut : ∀ r, t.bind findRow = some r → r.size = enc.length) (hlen : enc.length < 2 ^ 32) :
+    ∃ c1, remoteSet c idx sub t v = (c1, .ok ()) ∧
+      lookup (idx, sub) c1.peer.2.store = some enc ∧
+      localGet c1.peer.2 idx sub t = some v' ∧
+      localUpload c1.peer.2 idx sub = some enc ∧
+      (accReadable a = true → ∀ fuel, enc.length + 2 ≤ fuel →
+        ∃ c2, remoteGet c1 idx sub t fuel = (c2, .ok v') ∧ c2.peer.2 = c1.peer.2) ∧
+      (accReadable a = false → ∀ fuel,
+        ∃ c2, remoteGet c1 idx sub t fuel = (c2, .error (.aborted 0x06010001)) ∧ c2.peer.2 = c1.peer.2) := by
+  have hset := setData_entry c.peer.2 idx sub t a enc true hentry (fun _ => hw) hnum
+  obtain ⟨c1, hdl, hn1, _⟩ := download_lib c idx sub enc (t == some DOMAIN) [] _ hwf hidx hsub hset
+  obtain ⟨h1, h2, h3, hrem⟩ := reads_after_store c.peer.2 idx sub t a v' enc hidx hsub hentry hdec hcut hlen
+  obtain ⟨hyes, hno⟩ := hrem c1 hn1
+  refine ⟨c1, by simp only [remoteSet, henc, hdl], ?_, ?_, ?_, hyes, hno⟩
+  · rw [hn1]; exact h1
+  · rw [hn1]; exact h2
+  · rw [hn1]; exact h3
+
+/-- **Generic round trip of a value the application assigns itself**, for every access type
+    (read-only and constant entries included — the application is not subject to access rights):
+    after `local[x].raw = v` the node holds exactly `enc`, the local side reads `v'` back, and every
+    client on the bus reads `v'` (entry readable over the bus) or is refused with 0x06010001
+    (write-only). -/
+theorem local_assign_roundtrip (n : Node) (idx sub : Nat) (t : Option Nat) (a : Nat) (v v' : Val) (enc : Bytes)
+    (hidx : idx < 65536) (hsub : sub < 256) (hentry : Entry n idx sub t a)
+    (henc : encodeRaw t v = some enc) (hdec : decodeRaw t enc = some v')
+    (hnum : isNumberType t = true → 8 * enc.length = bitLen t)
+    (hcut : ∀ r, t.bind findRow = some r → r.size = enc.length) (hlen : enc.length < 2 ^ 32) :
+    ∃ n1, localSet n idx sub t v = .ok n1 ∧
+      lookup (idx, sub) n1.store = some enc ∧
+      localGet n1 idx sub t = some v' ∧
+      localUpload n1 idx sub = some enc ∧
+      ∀ c1 : Chan (Srv × Node), c1.peer.2 = n1 →
+        (accReadable a = true → ∀ fuel, enc.length + 2 ≤ fuel →
+          ∃ c2, remoteGet c1 idx sub t fuel = (c2, .ok v') ∧ c2.peer.2 = c1.peer.2) ∧
+        (accReadable a = false → ∀ fuel,
+          ∃ c2, remoteGet c1 idx sub t fuel = (c2, .error (.aborted 0x06010001)) ∧ c2.peer.2 = c1.peer.2) := by
+  have hset := setData_entry n idx sub t a enc false hentry (fun h => by cases h) hnum
+  obtain ⟨h1, h2, h3, hrem⟩ := reads_after_store n idx sub t a v' enc hidx hsub hentry hdec hcut hlen
+  exact ⟨stored n idx sub enc, by simp only [localSet, henc, hset], h1, h2, h3, hrem⟩
+
+/-- the codec facts the generic theorems need, for an integer type and a value in its range -/
+theorem int_codec (e : Nat × Nat × Bool) (he : e ∈ C04.intTypes) (v : Int) (hv : inRange e.2.1 e.2.2 v = true) :
+    encodeRaw (some e.1) (.int v) = some (leBytes (e.2.1 / 8) (ofSigned e.2.1 v)) ∧
+    decodeRaw (some e.1) (leBytes (e.2.1 / 8) (ofSigned e.2.1 v)) = some (.int v) ∧
+    (leBytes (e.2.1 / 8) (ofSigned e.2.1 v)).length = e.2.1 / 8 ∧
+    (isNumberType (some e.1) = true → 8 * (e.2.1 / 8) = bitLen (some e.1)) ∧
+    (∀ r, (some e.1).bind findRow = some r → r.size = e.2.1 / 8) ∧ e.2.1 / 8 < 2 ^ 32 := by
+  have henc := C04.encode_is_twos_complement_le e he v hv
+  have hdec := C04.decode_encode e he v hv
+  rw [henc, Option.bind_some] at hdec
+  obtain ⟨hbl, _, h8⟩ := Canopen.C05.intTypes_bitLen e he
+  have hw64 : e.2.1 ≤ 64 := by
+    have : ∀ x ∈ C04.intTypes, x.2.1 ≤ 64 := by decide
+    exact this e he
+  refine ⟨henc, hdec, leBytes_length _ _, ?_, ?_, by omega⟩
+  · intro _; rw [hbl]; omega
+  · intro r hr
+    simp only [Option.bind_some] at hr
+    have : bitLen (some e.1) = r.size * 8 := by simp [bitLen, hr]
+    rw [hbl] at this; omega
+
+/-- **Every integer type, every value in its range, every access type the bus may write** (`rw`,
+    `wo`, `rwr`, `rww`): after `remote[x].raw = v` the local node holds exactly the CiA 301
+    little-endian two's-complement encoding of `v` and `local[x].raw` reads `v` — a write-only entry
+    included; `remote[x].raw` reads `v` when the bus may read the entry and raises
+    `SdoAbortedError(0x06010001)` when it may not. -/
+theorem typed_roundtrip_access : ∀ e ∈ C04.intTypes, ∀ (c : Chan (Srv × Node)) (idx sub a : Nat) (v : Int),
+    SrvWF c.peer.1 → idx < 65536 → sub < 256 → Entry c.peer.2 idx sub (some e.1) a → accWritable a = true →
+    inRange e.2.1 e.2.2 v = true →
+    ∃ c1, remoteSet c idx sub (some e.1) (.int v) = (c1, .ok ()) ∧
+      lookup (idx, sub) c1.peer.2.store = some (leBytes (e.2.1 / 8) (ofSigned e.2.1 v)) ∧
+      localGet c1.peer.2 idx sub (some e.1) = some (.int v) ∧
+      localUpload c1.peer.2 idx sub = some (leBytes (e.2.1 / 8) (ofSigned e.2.1 v)) ∧
+      (accReadable a = true → ∀ fuel, e.2.1 / 8 + 2 ≤ fuel →
+        ∃ c2, remoteGet c1 idx sub (some e.1) fuel = (c2, .ok (.int v)) ∧ c2.peer.2 = c1.peer.2) ∧
+      (accReadable a = false → ∀ fuel,
+        ∃ c2, remoteGet c1 idx sub (some e.1) fuel = (c2, .error (.aborted 0x06010001)) ∧ c2.peer.2 = c1.peer.2) := by
+  intro e he c idx sub a v hwf hidx hsub hentry hw hv
+  obtain ⟨henc, hdec, hl, hnum, hcut, hlen⟩ := int_codec e he v hv
+  have := access_roundtrip c idx sub (some e.1) a (.int v) (.int v) _ hwf hidx hsub hentry hw henc hdec
+    (by rw [hl]; exact hnum) (by rw [hl]; exact hcut) (by rw [hl]; exact hlen)
+  rw [hl] at this
+  exact this
+
+/-- the codec facts for byte strings through an entry whose type has no fixed size and is not text -/
+theorem bytes_codec (t : Nat) (bs : Bytes) (hrow : findRow t = none) (hvis : t ≠ VISIBLE_STRING)
+    (huni : t ≠ UNICODE_STRING) :
+    encodeRaw (some t) (.bytes bs) = some bs ∧ decodeRaw (some t) bs = some (.bytes bs) ∧
+    (isNumberType (some t) = true → 8 * bs.length = bitLen (some t)) ∧
+    (∀ r, (some t).bind findRow = some r → r.size = bs.length) := by
+  have hnn : isNumberType (some t) = false := by
+    have hall : ∀ x ∈ NUMBER_TYPES, findRow x ≠ none := by decide
+    cases hc : isNumberType (some t) with
+    | false => rfl
+    | true =>
+      simp only [isNumberType, List.contains_iff_mem] at hc
+      exact absurd hrow (hall t (by simpa using hc))
+  refine ⟨rfl, by simp [decodeRaw, hvis, huni, hrow], ?_, ?_⟩
+  · intro h; rw [hnn] at h; cases h
+  · intro r hr; simp [hrow] at hr
+
+/-- **Byte strings of any length, every access type the bus may write** (OCTET_STRING, DOMAIN with
+    forced segmentation, unknown types; the empty value included): the local node holds exactly the
+    bytes and reads them back — also from a write-only entry; the remote side reads them or is
+    refused with 0x06010001. -/
+theorem bytes_roundtrip_access (c : Chan (Srv × Node)) (idx sub t a : Nat) (bs : Bytes)
+    (hwf : SrvWF c.peer.1) (hidx : idx < 65536) (hsub : sub < 256) (hentry : Entry c.peer.2 idx sub (some t) a)
+    (hw : accWritable a = true)
+    (hrow : findRow t = none) (hvis : t ≠ VISIBLE_STRING) (huni : t ≠ UNICODE_STRING) (hlen : bs.length < 2 ^ 32) :
+    ∃ c1, remoteSet c idx sub (some t) (.bytes bs) = (c1, .ok ()) ∧
+      lookup (idx, sub) c1.peer.2.store = some bs ∧
+      localGet c1.peer.2 idx sub (some t) = some (.bytes bs) ∧
+      localUpload c1.peer.2 idx sub = some bs ∧
+      (accReadable a = true → ∀ fuel, bs.length + 2 ≤ fuel →
+        ∃ c2, remoteGet c1 idx sub (some t) fuel = (c2, .ok (.bytes bs)) ∧ c2.peer.2 = c1.peer.2) ∧
+      (accReadable a = false → ∀ fuel,
+        ∃ c2, remoteGet c1 idx sub (some t) fuel = (c2, .error (.aborted 0x06010001)) ∧ c2.peer.2 = c1.peer.2) := by
+  obtain ⟨henc, hdec, hnum, hcut⟩ := bytes_codec t bs hrow hvis huni
+  exact access_roundtrip c idx sub (some t) a (.bytes bs) (.bytes bs) bs hwf hidx hsub hentry hw henc hdec hnum hcut hlen
+
+/-- **Every integer type, every value in its range, every access type, assigned by the
+    application** (`local[x].raw = v`, read-only and constant entries included): the node holds the
+    little-endian encoding, the local side reads `v`, every client on the bus reads `v` or (write-only
+    entry) is refused with 0x06010001. -/
+theorem local_assign_typed : ∀ e ∈ C04.intTypes, ∀ (n : Node) (idx sub a : Nat) (v : Int),
+    idx < 65536 → sub < 256 → Entry n idx sub (some e.1) a → inRange e.2.1 e.2.2 v = true →
+    ∃ n1, localSet n idx sub (some e.1) (.int v) = .ok n1 ∧
+      lookup (idx, sub) n1.store = some (leBytes (e.2.1 / 8) (ofSigned e.2.1 v)) ∧
+      localGet n1 idx sub (some e.1) = some (.int v) ∧
+      localUpload n1 idx sub = some (leBytes (e.2.1 / 8) (ofSigned e.2.1 v)) ∧
+      ∀ c1 : Chan (Srv × Node), c1.peer.2 = n1 →
+        (accReadable a = true → ∀ fuel, e.2.1 / 8 + 2 ≤ fuel →
+          ∃ c2, remoteGet c1 idx sub (some e.1) fuel = (c2, .ok (.int v)) ∧ c2.peer.2 = c1.peer.2) ∧
+        (accReadable a = false → ∀ fuel,
+          ∃ c2, remoteGet c1 idx sub (some e.1) fuel = (c2, .error (.aborted 0x06010001)) ∧ c2.peer.2 = c1.peer.2) := by
+  intro e he n idx sub a v hidx hsub hentry hv
+  obtain ⟨henc, hdec, hl, hnum, hcut, hlen⟩ := int_codec e he v hv
+  have := local_assign_roundtrip n idx sub (some e.1) a (.int v) (.int v) _ hidx hsub hentry henc hdec
+    (by rw [hl]; exact hnum) (by rw [hl]; exact hcut) (by rw [hl]; exact hlen)
+  rw [hl] at this
+  exact this
+
+/-- **Byte strings of any length, every access type, assigned by the application.** -/
+theorem local_assign_bytes (n : Node) (idx sub t a : Nat) (bs : Bytes)
+    (hidx : idx < 65536) (hsub : sub < 256) (hentry : Entry n idx sub (some t) a)
+    (hrow : findRow t = none) (hvis : t ≠ VISIBLE_STRING) (huni : t ≠ UNICODE_STRING) (hlen : bs.length < 2 ^ 32) :
+    ∃ n1, localSet n idx sub (some t) (.bytes bs) = .ok n1 ∧
+      lookup (idx, sub) n1.store = some bs ∧
+      localGet n1 idx sub (some t) = some (.bytes bs) ∧
+      localUpload n1 idx sub = some bs ∧
+      ∀ c1 : Chan (Srv × Node), c1.peer.2 = n1 →
+        (accReadable a = true → ∀ fuel, bs.length + 2 ≤ fuel →
+          ∃ c2, remoteGet c1 idx sub (some t) fuel = (c2, .ok (.bytes bs)) ∧ c2.peer.2 = c1.peer.2) ∧
+        (accReadable a = false → ∀ fuel,
+          ∃ c2, remoteGet c1 idx sub (some t) fuel = (c2, .error (.aborted 0x06010001)) ∧ c2.peer.2 = c1.peer.2) := by
+  obtain ⟨henc, hdec, hnum, hcut⟩ := bytes_codec t bs hrow hvis huni
+  exact local_assign_roundtrip n idx sub (some t) a (.bytes bs) (.bytes bs) bs hidx hsub hentry henc hdec hnum hcut hlen
+
 /-! ## index, name and 'Parent.Child' reach the same object -/
 
 open Canopen.Od in
@@ -813,5 +1143,30 @@ def exNode : Node :=
 
 example : RWEntry exNode 0x2000 0 (some INTEGER16) := ⟨⟨_, rfl, rfl, rfl, rfl⟩, rfl, rfl⟩
 example : (INTEGER16, 16, true) ∈ C04.intTypes ∧ inRange 16 true (-5) = true := by decide
+
+/-- a write-only UNSIGNED32 command word, a read-only UNSIGNED16 status word, a constant -/
+def accNode : Node :=
+  { od := [(0x2200, .var ⟨some UNSIGNED32, 2, none, none⟩), (0x2201, .var ⟨some UNSIGNED16, 1, none, some (.int 9)⟩),
+           (0x2202, .record [(1, ⟨some OCTET_STRING, 3, none, none⟩)])],
+    store := [], readCb := [], writeLog := [] }
+
+example : Entry accNode 0x2200 0 (some UNSIGNED32) 2 ∧ accWritable 2 = true ∧ accReadable 2 = false :=
+  ⟨⟨⟨_, rfl, rfl, rfl⟩, rfl, rfl⟩, rfl, rfl⟩
+example : Entry accNode 0x2201 0 (some UNSIGNED16) 1 ∧ accWritable 1 = false ∧ accReadable 1 = true :=
+  ⟨⟨⟨_, rfl, rfl, rfl⟩, rfl, rfl⟩, rfl, rfl⟩
+example : Entry accNode 0x2202 1 (some OCTET_STRING) 3 ∧ accReadable 3 = true :=
+  ⟨⟨⟨_, rfl, rfl, rfl⟩, rfl, rfl⟩, rfl⟩
+example : (UNSIGNED32, 32, false) ∈ C04.intTypes ∧ inRange 32 false 0xDEADBEEF = true := by decide
+/-- the access types that admit the write over the bus, and those the bus may read -/
+example : [0, 1, 2, 3, 4, 5].filter accWritable = [0, 2, 4, 5] ∧ [0, 1, 2, 3, 4, 5].filter accReadable = [0, 1, 3, 4, 5] := by
+  decide
+/-- the write-only round trip, evaluated: stored little-endian, read locally, refused remotely -/
+example :
+    let c0 : Chan (Srv × Node) := { peer := (srvInit, accNode), queue := [], sent := [] }
+    let c1 := (remoteSet c0 0x2200 0 (some UNSIGNED32) (.int 0xDEADBEEF)).1
+    lookup (0x2200, 0) c1.peer.2.store = some [0xEF, 0xBE, 0xAD, 0xDE] ∧
+    localGet c1.peer.2 0x2200 0 (some UNSIGNED32) = some (.int 0xDEADBEEF) ∧
+    (remoteGet c1 0x2200 0 (some UNSIGNED32) 10).2 = .error (.aborted 0x06010001) := by
+  decide
 
 end Canopen.C03
